@@ -1,10 +1,11 @@
 ---------------------------- MODULE RrelOracle ----------------------------
-(* Oracle mode of Rrel.tla (C11): JSON cases in, per case and referencing    *)
-(* object the accepted set of every alternative, the deciding alternative   *)
-(* and the set of objects the reference may resolve to -- under the          *)
-(* documented semantics and under the deviation StarMarksStart -- out.       *)
-(* Cases with q = "path" carry an observed `+p:` path and are answered with  *)
-(* one verdict per deviation set.                                            *)
+(* Oracle mode of Rrel.tla (C11): JSON cases in, answers out.                *)
+(*  q = "reach": per referencing object the accepted set of every           *)
+(*      alternative, the deciding alternative and the set of objects the    *)
+(*      reference may resolve to -- under the documented semantics and under *)
+(*      the deviation StarMarksStart;                                        *)
+(*  q = "path":  the case carries an observed `+p:` path; one verdict for    *)
+(*      the documented semantics and one per deviation set.                  *)
 EXTENDS Rrel, Json, IOUtils
 
 \* the cases are parsed once and kept in a TLC register (run with one worker)
@@ -25,7 +26,7 @@ One(c) == LET A == [j \in 1..NAlt(c) |-> SetToSeq(Accepted(c, j))]
           IN [acc |-> A, alt |-> d, allowed |-> IF d = 0 THEN <<>> ELSE A[d]]
 
 \* StarMarksStart can only matter when some `*` in first position can start at the root
-\* (theorem DevNeedsRootStar of MC_Rrel); otherwise the second evaluation is skipped
+\* (theorem DevOnlyRemoves of MC_Rrel); otherwise the second evaluation is skipped
 RECURSIVE RootStarFirst(_)
 RootStarFirst(e) == CASE e.k = "star" -> SR(e.e) \/ RootStarFirst(e.e)
                       [] e.k = "br"   -> \E j \in 1..Len(e.paths) : RootStarFirst(e.paths[j].els[1])
@@ -40,15 +41,18 @@ ReachAnswer(x) ==
      IN [start |-> x.starts[n], acc |-> c.acc, alt |-> c.alt, allowed |-> c.allowed,
          accd |-> d.acc, altd |-> d.alt, allowedd |-> d.allowed]]]
 
-\* is the observed path x.obs the path of a witnessing derivation of the deciding alternative?
-PathOk(x, rdev, pdev) ==
-  LET r == Mk(x, x.start, rdev, FALSE, <<>>)
-      j == Deciding(r)
-  IN j # 0 /\ PathWitness(Mk(x, x.start, rdev \cup pdev, TRUE, x.obs), j)
-
+\* `+p:` -- is the observed path x.obs the path of a witnessing derivation of the deciding
+\* alternative?  The deviation sets are only evaluated when the documented semantics says no.
 PathAnswer(x) ==
-  [id |-> x.id, doc |-> PathOk(x, {}, {}), sms |-> PathOk(x, SMS, {}),
-   pln |-> PathOk(x, {}, PLN), both |-> PathOk(x, SMS, PLN)]
+  LET Dec(rdev) == Deciding(Mk(x, x.start, rdev, FALSE, <<>>))
+      j0  == Dec({})
+      j1  == IF DevMatters(x) THEN Dec(SMS) ELSE j0
+      W(j, dev) == j # 0 /\ PathWitness(Mk(x, x.start, dev, TRUE, x.obs), j)
+      doc == W(j0, {})
+  IN [id |-> x.id, doc |-> doc,
+      sms  |-> ~doc /\ W(j1, SMS),
+      pln  |-> ~doc /\ W(j0, PLN),
+      both |-> ~doc /\ W(j1, SMS \cup PLN)]
 
 Answer(x) == IF x.q = "path" THEN PathAnswer(x) ELSE ReachAnswer(x)
 
